@@ -466,7 +466,7 @@ def assist_import_proposals(run):
     f = loader.load(MOD, 'assist', stubs=dict(
         Source=lambda source, filename, position: source, EvalCtx=lambda project: object(), re=ReStub(),
         get_marked_import=lambda tree: seen['marked'], list_packages=lambda project, root, filename: PL,
-        sorted=sorted_stub, set=set_stub, list=lambda x: ('list', x), print_dump=lambda tree: None))
+        sorted=sorted_stub, set=set_stub, list=lambda x: [('list-of', x)], print_dump=lambda tree: None))
 
     def go(path):
         class Src(object):
